@@ -11,14 +11,17 @@ STRAT = D.STRATEGY
 def hop_to_fop(h):
     k = h[0]
     if k == "start":
-        return ["start", h[1], h[2], False]
+        # optional 4th entry: ctx.metadata["watchdog_exempt"] = True right after start_operation
+        return ["start", h[1], h[2], bool(len(h) > 3 and h[3])]
     return list(h)
 
 
 def coq_hop(h):
     k = h[0]
     if k == "start":
-        return f"(HStart {cz(h[1])} {cz(h[2])})"
+        return f"({'HStartExempt' if len(h) > 3 and h[3] else 'HStart'} {cz(h[1])} {cz(h[2])})"
+    if k == "kill":
+        return f"(HKill {cz(h[1])})"
     if k == "acq":
         return f"(HAcquire {cz(h[1])} {cz(h[2])})"
     if k == "rel":
@@ -47,6 +50,12 @@ def coq_xop(h):
         return f"(XSetPrio {cz(h[1])} {cz(h[2])})"
     if k == "setpre":
         return f"(XSetPreempt {cz(h[1])} {cbool(h[2])})"
+    if k == "tick":
+        return f"(XTick {cz(h[1])})"
+    if k == "adv":
+        return f"(XAdvance {cz(h[1])})"
+    if k == "pop":
+        return f"(XPopWaiter {cz(h[1])})"
     return f"(XHop {coq_hop(h)})"
 
 
@@ -82,7 +91,46 @@ def xstep(w, h):
             return [-1]
         lock.allow_preemption = bool(h[2])
         return [0]
-    return w._fstep(hop_to_fop(h))
+    ctxs = w.__dict__.setdefault("ctxs", {})
+    if k in ("complete", "abort", "rel") and D.oname(h[1]) not in c.active_operations and D.oname(h[1]) in ctxs:
+        # the caller still holds the context of an operation that has ENDED and completes / aborts / releases
+        # through it once more.  The model's alphabet has no such call ([-1] = "the driver did not make the
+        # call"): it has to leave everything as it is, whatever it changes shows as a difference to the model.
+        ctx = ctxs[D.oname(h[1])]
+        if k == "complete":
+            c.complete_operation(ctx)
+        elif k == "abort":
+            c.abort_operation(ctx, reason="history")
+        else:
+            c.release_resource(ctx, D.rname(h[2]))
+        return [-1]
+    ret = w._fstep(hop_to_fop(h))
+    ctxs.update(c.active_operations)
+    return ret
+
+
+def look(w, ref):
+    """Every read-only accessor of the controller, its locks and graph, the watchdog and the priority manager.
+    Not part of the model's alphabet (stripped from the Coq case). -> True iff anything the future can depend on
+    differs afterwards."""
+    c, wd, pm = w.ctl, w.sys.watchdog, w.sys.priority_manager
+    before = (state_key(w, ref), len(wd.events), pm.total_boosts)
+    c.stats()
+    w.sys.health()
+    for r in w.res:
+        lock = c.resources[D.rname(r)]
+        lock.hold_duration
+        lock.is_available
+    g = c.dependency_graph
+    for o in list(c.active_operations.keys()) + list(g.edges.keys()):
+        g.get_blocking_chain(o)
+        pm.get_boost(o)
+        pm.is_boosted(o)
+    c.check_deadlock()
+    wd.check(c)
+    wd.stats()
+    pm.stats()
+    return (state_key(w, ref), len(wd.events), pm.total_boosts) != before
 
 
 def prio_rows(w):
@@ -152,7 +200,7 @@ def run_history(case, light=False):
     for m in mods:
         m.datetime = D.VClock
     try:
-        w = D.World(case["res"], {"strategy": case["strategy"]})
+        w = D.World(case["res"], {"strategy": case["strategy"], **case.get("w", {})})
         ref = Reference()
         obs, steps = [], []
         flat = lambda es: [x for e in es for x in e]
@@ -160,6 +208,14 @@ def run_history(case, light=False):
         n = len(case["ops"])
         for i, h in enumerate(case["ops"]):
             before = after
+            if h[0] == "look":
+                # transparent to the model: no rows unless something changed
+                if look(w, ref) and not light:
+                    obs.append([199])
+                after = w.view()
+                steps.append({"op": h, "ret": [], "before": before, "after": after, "ref": ref.step(h, [], after),
+                              "key": state_key(w, ref) if (not light or i == n - 1) else None})
+                continue
             ret = xstep(w, h)
             after = w.view()
             refedges = ref.step(h, ret, after)
@@ -181,7 +237,7 @@ def _alarm(_sig, _frm):
     raise common.Hang()
 
 
-def run_light(case, timeout=10):
+def run_light(case, timeout=30):
     """run_history(light) under an interval timer when on the main thread (a thread per call costs as much
     as the call), under the thread watchdog otherwise."""
     import signal
@@ -204,9 +260,10 @@ def state_key(w, ref):
                   for r, l in ((r, c.resources[D.rname(r)]) for r in w.res))
     boosts = tuple((o, b.original_priority, b.boosted_priority)
                    for o, b in w.sys.priority_manager.active_boosts.items())
-    ops = tuple((o, x.priority, tuple(x.acquired_resources.keys())) for o, x in c.active_operations.items())
+    ops = tuple((o, x.priority, tuple(x.acquired_resources.keys()), x.phase.value, x.created_at, x.phase_entered_at,
+                 bool(x.metadata.get("watchdog_exempt"))) for o, x in c.active_operations.items())
     edges = tuple((a, tuple(b)) for a, b in c.dependency_graph.edges.items())
-    return (locks, ops, edges, tuple(sorted(w.ever)), tuple(sorted(ref.blocked)), boosts)
+    return (locks, ops, edges, tuple(sorted(w.ever)), tuple(sorted(ref.blocked)), boosts, D.VClock.now_s)
 
 
 class C15(Check):
@@ -214,31 +271,45 @@ class C15(Check):
     HEADER = "From Verif Require Import C14.Model C15.Model."
     RUN = "run_case"
     extra_dirs = ("C14",)
-    N_QUICK = 500
+    N_QUICK = 400
     N_THOROUGH = 6000
     RULE = ("histories over {start(op,priority), acquire(op,r), release(op,r), complete(op), abort(op), watchdog.execute()} for 2-3 "
             "operations x 2-3 resources, each resource preemptable or not, strategies priority/oldest/other, interleaved with the calls that "
             "change what a LATER acquisition returns without being one: PriorityInheritance.check_and_boost / restore_priority / clear_all "
             "(one PriorityInheritance object per history, as in CoordinationSystem.run_maintenance), assignment to OperationContext.priority, "
-            "assignment to ResourceLock.allow_preemption. Exhaustive part: every history up to depth 5-6 (quick) / 8 (thorough) of the 2x2 "
+            "assignment to ResourceLock.allow_preemption; and with the other public calls on the same objects and the knobs the "
+            "property does not mention: watchdog time-outs (max_operation_time / starvation_timeout / progress_timeout, values "
+            "-1,0,1,2,3 s) with time passing (virtual clock), controller.advance (G0 -> G1), watchdog-exempt operations, "
+            "CoordinationSystem.kill_operation, ResourceLock.pop_next_waiter, acquisitions of an unregistered resource, "
+            "complete / abort / release through the retained context of an operation that has ended (no-ops for the model), and - "
+            "stripped from the model's case, so anything they change shows as a disagreement - every read-only accessor "
+            "(controller.stats, system.health, lock.hold_duration / is_available, graph.get_blocking_chain, check_deadlock, "
+            "watchdog.check / stats, priority manager get_boost / is_boosted / stats) between the calls. Exhaustive part: every history up to depth 5-6 (quick) / 8 (thorough) of the 2x2 "
             "configurations and depth 4 / 6 of the 3x3 ones; with all operations started first: 2 operations x 2 resources with priority "
             "assignments in the alphabet to depth 5 / 7, and 3 operations (the highest-priority one last in the chain) x 2 resources over "
-            "{acquire, release, watchdog, check_and_boost, restore_priority(, clear_all)} to depth 6 / 7; explored depth-first on the real "
-            "code with calls on inactive operations dropped (they are no-ops) and a subtree cut when the complete "
+            "{acquire, release, watchdog, check_and_boost, restore_priority(, clear_all)} to depth 6 / 7, and 2 operations of different "
+            "age x 2 resources with max_operation_time and starvation_timeout configured over {acquire, release, watchdog, "
+            "2 s pass, kill, advance} to depth 5 / 6; explored depth-first on the real "
+            "code with calls on inactive operations (made through the retained context where there is one) dropped when they are "
+            "no-ops and a subtree cut when the complete "
             "controller+lock+boost+monitor state was already expanded with at least the same remaining depth; the monitor runs on every "
             "explored transition; one case per maximal explored path (for the priority configurations an evenly spaced subset of at most "
             "300 / 4000 paths per configuration goes through the Coq correspondence). Random part: histories of length 4..20 biased "
             "towards blocking/cycles and towards priority inversion chains followed by inheritance and retries. non-trivial = at least one "
             "BLOCKED/PREEMPTED acquisition; distinct by content")
     LEVEL_TEXT = ("Coq theorems over all histories of any length and any number of operations/resources - including priority inheritance "
-                  "(check_and_boost, restore_priority, clear_all), priority assignments and allow_preemption assignments at any point - about "
+                  "(check_and_boost, restore_priority, clear_all), priority assignments, allow_preemption assignments, time passing, "
+                  "controller.advance, pop_next_waiter, manual kills and watchdog-exempt starts at any point, under any watchdog "
+                  "configuration (three time-outs, victim strategy) - about "
                   "the model of the controller (C14/Model.v) and of priority.py (C15/Model.v) with a ghost reference relation: the recorded "
                   "dependency edges equal the reference wait-for relation in every reachable state; nobody is recorded as waiting for itself; "
                   "an acquisition that returns anything but BLOCKED ends that operation's wait for that resource (also for a former waiter "
-                  "that now preempts); a priority call changes neither relation nor the verdict; a reported cycle is a real cycle of the "
+                  "that now preempts); a call that is no start/acquisition/release/end/watchdog pass changes neither relation nor the "
+                  "verdict; a manual kill is an abort; a reported cycle is a real cycle of the "
                   "recorded (= reference) relation whose members are live and really waiting; if the relation has a cycle detect_cycle reports "
                   "one (DFS white/grey/black argument, fuel proved sufficient); the watchdog's victim is a minimal-priority / oldest member, "
-                  "owns nothing afterwards and the cycle is gone. The model is tied to the code by running both on the same histories; the "
+                  "is terminated by that pass (as DEADLOCK victim, or as overdue when a time-out applies to it anyway), owns nothing "
+                  "afterwards and the cycle is gone. The model is tied to the code by running both on the same histories; the "
                   "reference relation is recomputed independently in Python on every implementation trace.")
     LEVEL_NOTE = ("Trusts: Coq kernel+VM; the correspondence harness; the READING of 'currently blocked' (DESIGN.md C15); fresh operation ids; "
                   "sequential calls. Axioms: none.")
@@ -246,6 +317,9 @@ class C15(Check):
     TRUSTED = ["modelled not verified: ids are integers, contexts are identified with their fresh operation id, virtual clock",
                "the Python reference monitor (harness/c15.py Reference / has_cycle) is the transcription of the READING; it is cross-checked "
                "against the Coq ghost relation on every case (observation row 204)",
+               "read-only accessors and calls through the context of an ended operation are not in the model's alphabet: the model "
+               "treats them as no-ops and the correspondence check confirms that on every case that contains them",
+               "phase S (progress_timeout) is only reachable through CoordinationSystem.execute_operation (C14), not in C15 histories",
                "PriorityBoost records are observed as (operation, original_priority, boosted_priority); reason/timestamp and "
                "PriorityInheritance.total_boosts are not modelled"]
     ASSUMPTIONS = ["operation ids are fresh per operation", "resources are registered before the history starts",
@@ -277,8 +351,9 @@ class C15(Check):
         except Exception as e:
             return [[-998]], {"harness_error": f"{type(e).__name__}: {e}"}
 
-    def explore(self, res, strategy, prios, depth, al=None, prefix0=()):
+    def explore(self, res, strategy, prios, depth, al=None, prefix0=(), wcfg=None):
         """Depth-first exploration on the real code; returns maximal explored paths."""
+        extra_keys = {"w": wcfg} if wcfg else {}
         if al is None:
             al = self.alphabet(len(prios), len(res))
         seen = {}
@@ -292,7 +367,7 @@ class C15(Check):
             if remaining > 0:
                 for sym in al:
                     h = mk(sym)
-                    case = {"res": res, "strategy": strategy, "ops": prefix + [h]}
+                    case = {"res": res, "strategy": strategy, **extra_keys, "ops": prefix + [h]}
                     _obs, steps = self._light_impl(case)
                     self.explored_edges += 1
                     if not isinstance(steps, list):      # the implementation raised / hung
@@ -303,9 +378,9 @@ class C15(Check):
                         extended = True
                         continue
                     st = steps[-1]
-                    if st["ret"] == [-1]:
-                        continue                       # call on an inactive operation / reused id: nothing happens
                     v = self.monitor(case, None, steps, only_last=True)   # the prefix was checked on the way here
+                    if v is None and st["ret"] == [-1] and (key is None or st["key"] == key):
+                        continue                       # call on an inactive operation / reused id: nothing happened
                     if v is not None:
                         v.case = case
                         self.violations.append(v)
@@ -342,6 +417,8 @@ class C15(Check):
         cfg22 = []
         for pre in ([False, False], [True, True], [True, False]):
             for prios in ([0, 0], [0, 1], [1, 0]):
+                if quick and prios == [0, 0] and pre != [False, False]:
+                    continue        # equal priorities never preempt: the flags only matter in the thorough tier
                 for strat in (["priority"] if quick else ["priority", "oldest"]):
                     # quick: full depth only for the unequal-priority configurations (preemption possible)
                     d = d22 - 1 if (quick and prios != [0, 1]) else d22
@@ -365,12 +442,12 @@ class C15(Check):
         cap = 300 if quick else 4000
         npaths = 0
 
-        def emit(res, paths):
+        def emit(res, paths, strategy="priority", wcfg=None):
             nonlocal npaths
             npaths += len(paths)
             k = max(1, -(-len(paths) // cap))
             for ops in paths[::k]:
-                cases.append({"res": res, "strategy": "priority", "ops": ops})
+                cases.append({"res": res, "strategy": strategy, **({"w": wcfg} if wcfg else {}), "ops": ops})
         for pre in ([[True, False]] if quick else [[True, False], [True, True], [False, False]]):
             res = [[1, pre[0]], [2, pre[1]]]
             extra = [("setprio", 1, 2), ("setprio", 2, 0)]
@@ -387,10 +464,24 @@ class C15(Check):
             pre0 = [["start", o, prios[o - 1]] for o in (1, 2, 3)]
             emit(res, self.explore(res, "priority", prios, dB, al=al, prefix0=pre0))
         self.extra_cov["explored_transitions_priority_changes"] = self.explored_edges - n_before
+        # (c) watchdog time-outs configured (max_operation_time, starvation_timeout), time passing, controller.advance
+        #     (G0 -> G1, where starvation is watched), manual kill: the pass that handles a deadlock also reaps
+        #     overdue operations, the victim may be one of them; op1 is older than op2.
+        n_before = self.explored_edges
+        dC = 5 if quick else 6
+        cfgC = [([[1, False], [2, False]], "oldest", {"max": 2, "starve": 1})]
+        if not quick:
+            cfgC += [([[1, True], [2, False]], "priority", {"max": 3}), ([[1, False], [2, False]], "priority", {"starve": 1, "max": -1})]
+        for res, strat, wc in cfgC:
+            al = self.alphabet(2, 2, starts=False, ends=False, extra=[("tick", 2), ("kill", 1), ("adv", 2)])
+            pre0 = [["start", 1, 0], ["tick", 1], ["start", 2, 1, strat == "priority"]]
+            emit(res, self.explore(res, strat, [0, 1], dC, al=al, prefix0=pre0, wcfg=wc), strategy=strat, wcfg=wc)
+        self.extra_cov["explored_transitions_timeouts"] = self.explored_edges - n_before
         self.extra_cov["maximal_paths_priority_changes"] = npaths
         self.extra_cov["explored_transitions"] = self.explored_edges
         self.extra_cov["exhaustive_depths"] = {"2ops_x_2res": d22, "3ops_x_3res": d33, "2ops_x_2res_setprio": dA,
-                                               "3ops_x_2res_inheritance_after_starts": dB}
+                                               "3ops_x_2res_inheritance_after_starts": dB,
+                                               "2ops_x_2res_timeouts_tick_advance_kill_after_starts": dC}
         # the monitor already ran on every explored transition; violations found there are kept
         self._explore_violations = list(self.violations)
         return cases
@@ -413,6 +504,12 @@ class C15(Check):
                 second = [["acq", i, i % n + 1] for i in range(1, n + 1)]
                 rng.shuffle(first)
                 rng.shuffle(second)
+                if n < nops and n < nres and rng.random() < 0.5:
+                    # a member of the ring first blocks on an outsider (its first recorded edge leaves the cycle),
+                    # or an outsider waits for a member (a chain into the cycle)
+                    first.append(["acq", n + 1, n + 1])
+                    second.insert(rng.randint(0, len(second)),
+                                  ["acq", rng.randint(1, n), n + 1] if rng.random() < 0.6 else ["acq", n + 1, rng.randint(1, n)])
                 ops += first + second
                 if rng.random() < 0.7:
                     ops.append(["wd"])
@@ -448,8 +545,8 @@ class C15(Check):
                     ops.append(["setpre", rng.choice(rs), True])
                 rng.shuffle(blocked)
                 ops += blocked[:rng.randint(1, len(blocked))]
-                if rng.random() < 0.4:
-                    ops.append(rng.choice([["restore", rng.choice(chain)], ["clearboosts"], ["boost"]]))
+                if rng.random() < 0.6:
+                    ops.append(rng.choice([["restore", rng.choice(chain)], ["clearboosts"], ["clearboosts"], ["boost"]]))
                     ops += blocked[:rng.randint(0, len(blocked))]
                 if rng.random() < 0.6:
                     ops.append(["wd"])
@@ -457,7 +554,7 @@ class C15(Check):
             for _ in range(rng.randint(3, 12)):
                 k = rng.random()
                 o = rng.randint(1, nops)
-                r = rng.randint(1, nres)
+                r = rng.randint(1, nres) if rng.random() < 0.97 else nres + 1      # rarely: not registered
                 if rng.random() < pchange:
                     j = rng.random()
                     if j < 0.4:
@@ -484,15 +581,64 @@ class C15(Check):
                     ops.append(["wd"])
             if rng.random() < 0.5:
                 ops.append(["wd"])
-            out.append({"res": res, "strategy": rng.choice(["priority", "priority", "oldest", "first"]), "ops": ops})
+            case = {"res": res, "strategy": rng.choice(["priority", "priority", "oldest", "first"]), "ops": ops}
+            out.append(self._widen(rng, case, nops, nres))
         return out
+
+    @staticmethod
+    def _widen(rng, case, nops, nres):
+        """Public calls on the same objects that are no acquisition / release / end of an operation, and the knobs
+        the property does not mention: watchdog time-outs (with time passing, advance into G1, exempt operations),
+        manual kill, pop_next_waiter, and every read-only accessor between the calls."""
+        ops = case["ops"]
+        if rng.random() < 0.4:
+            w = {}
+            if rng.random() < 0.8:
+                for kind in rng.choice([["max"], ["max"], ["starve"], ["progress"], ["max", "starve"]]):
+                    w[kind] = rng.choice([1, 2, 2, 3, -1, 0])
+            new = []
+            for h in ops:
+                if h[0] == "start":
+                    new.append(h[:3] + [True] if rng.random() < 0.2 else h)
+                    if rng.random() < 0.4:
+                        new.append(["tick", rng.choice([1, 2, 3])])
+                    if rng.random() < (0.6 if "starve" in w else 0.15):
+                        new.append(["adv", h[1]])
+                    continue
+                if h[0] == "wd" and rng.random() < 0.7:
+                    new.append(["tick", rng.choice([1, 2, 3])])
+                new.append(h)
+                k = rng.random()
+                if k < 0.08:
+                    new.append(["tick", rng.choice([1, 2, 3])])
+                elif k < 0.14:
+                    new.append(["adv", rng.randint(1, nops)])
+                elif k < 0.18:
+                    new.append(["kill", rng.randint(1, nops)])
+                elif k < 0.22:
+                    new.append(["pop", rng.randint(1, nres + (1 if rng.random() < 0.1 else 0))])
+            if w and not any(h[0] == "wd" for h in new[-2:]):
+                new.append(["wd"])
+            case = {**case, "ops": new}
+            if w:
+                case["w"] = w
+            ops = new
+        if rng.random() < 0.25:
+            new = []
+            for h in ops:
+                new.append(h)
+                if rng.random() < 0.3:
+                    new.append(["look"])
+            case = {**case, "ops": new}
+        return case
 
     # -- implementation ----------------------------------------------------
     def run_impl(self, case):
-        return common.call_with_watchdog(lambda: run_history(case), 10.0)
+        return common.call_with_watchdog(lambda: run_history(case), 30.0)   # generous: the machine may be heavily loaded
 
     def coq_case(self, case):
-        return ctuple(D.coq_res(case["res"]), STRAT[case["strategy"]], clist([coq_xop(h) for h in case["ops"]]))
+        return ctuple(D.coq_res(case["res"]), D.coq_wcfg({"strategy": case["strategy"], **case.get("w", {})}),
+                      clist([coq_xop(h) for h in case["ops"] if h[0] != "look"]))
 
     # -- the property, on the implementation's trace ------------------------
     def monitor(self, case, obs, steps, only_last=False):
@@ -521,14 +667,18 @@ class C15(Check):
             if h[0] == "wd":
                 bc = before["cycle"]
                 dl = [st["ret"][j] for j in range(0, len(st["ret"]), 2) if st["ret"][j + 1] == 3]
+                ended = [st["ret"][j] for j in range(0, len(st["ret"]), 2)]
                 if bc is None and dl:
                     return Violation("C15/victim-without-deadlock", f"step {i}: watchdog reported a deadlock victim {dl} but no deadlock was reported")
                 if bc is not None:
-                    if len(dl) != 1:
-                        return Violation("C15/no-victim", f"step {i}: deadlock {bc} before watchdog.execute, victims {dl}")
-                    v = dl[0]
                     strat = case["strategy"]
                     key = before["prio"] if strat == "priority" else before["created"] if strat == "oldest" else None
+                    # with time-outs configured the same pass reaps overdue operations; a member that is overdue
+                    # anyway is terminated as such, without a second (DEADLOCK) event
+                    least = [m for m in bc if m in before["active"] and (key is None or key[m] == min(key[x] for x in bc if x in key))][:1]
+                    if len(dl) > 1 or (not dl and not (least and least[0] in ended)):
+                        return Violation("C15/no-victim", f"step {i}: deadlock {bc} before watchdog.execute, victims {dl}, terminated {ended}")
+                    v = dl[0] if dl else least[0]
                     if v not in bc:
                         return Violation("C15/victim-not-member", f"step {i}: victim op{v} is not in the cycle {bc}")
                     if key is not None:
@@ -552,10 +702,15 @@ class C15(Check):
         if not isinstance(steps, list):
             return ["error"]
         ks = [f"len={min(len(steps), 15)}"]
+        if case.get("w"):
+            ks.append("timeouts=" + "+".join(sorted(case["w"])))
         prev_ref = []
+        started = set()
         for st in steps:
             h = st["op"]
             ks.append("op=" + h[0])
+            if h[0] == "start" and st["ret"] == [0]:
+                started.add(h[1])
             if h[0] == "acq" and st["ret"] and st["ret"][0] >= 0:
                 ks.append("acquire=" + {0: "acquired", 1: "blocked", 2: "reentrant", 3: "preempted", 9: "unknown"}[st["ret"][0]])
                 if st["ret"][0] == 3 and any(wt == h[1] and r == h[2] for (wt, _b, r) in prev_ref):
@@ -568,7 +723,20 @@ class C15(Check):
             if st["after"]["cycle"] is not None:
                 ks.append(f"deadlock-reported-len{len(st['after']['cycle'])}")
             if h[0] == "wd" and st["ret"]:
-                ks.append("watchdog-victim")
+                for why in st["ret"][1::2]:
+                    ks.append("watchdog-" + ["timeout", "starvation", "no-progress", "victim", "manual"][why])
+                if st["before"]["cycle"] is not None and 3 not in st["ret"][1::2]:
+                    ks.append("deadlock-victim-terminated-as-overdue")
+            if h[0] in ("complete", "abort", "rel") and st["ret"] == [-1] and h[1] in started:
+                ks.append("call-through-context-of-ended-operation")
+            if h[0] == "start" and len(h) > 3 and h[3]:
+                ks.append("start-exempt")
+            if h[0] == "adv" and st["ret"] and st["ret"][0] >= 0:
+                ks.append("advance=" + ("passed" if st["ret"][0] else "failed"))
+            if h[0] == "pop" and st["ret"] and st["ret"][0] == 1:
+                ks.append("pop=waiter")
+            if h[0] == "kill" and st["ret"] == [1]:
+                ks.append("killed")
             if st["ref"]:
                 ks.append(f"wait-edges={min(len(st['ref']), 4)}")
         return ks
